@@ -369,11 +369,12 @@ def handleEndMessage (w : World) (tb : Tables) (st : St) (compressed : Bool) (da
   | .error err =>
     -- `envelopingWriter.handleTrailer` reports a decompression failure itself; `transformingWriter`
     -- returns it to `Write`, which reports it
-    if reportInflate then let (st, p) := reportError w st err; (st, some err, p) else (st, some err, false)
+    if reportInflate then ((reportError w st err).1, some err, (reportError w st err).2) else (st, some err, false)
   | .ok d =>
     match decodeEndFromMessage tb st.op.sform d with
-    | none => let (st, p) := reportError w st .other; (st, some .other, p)
-    | some e => let (st, p) := reportEnd w st { e with wasCompressed := compressed }; (st, none, p)
+    | none => ((reportError w st .other).1, some .other, (reportError w st .other).2)
+    | some e =>
+      ((reportEnd w st { e with wasCompressed := compressed }).1, none, (reportEnd w st { e with wasCompressed := compressed }).2)
 
 /-- `envelopingWriter.maybeInit`. -/
 def ewInit (w : World) (st : St) (e : EW) : St × EW × Bool :=
